@@ -108,10 +108,16 @@ func vhRestartRun(tag string, kinds []int) *vhSM {
 		// restarted state machine is given carries arbitrary vote numbers
 		e.symEntrances = verifrt.Choose("restart-view-has-votes", 2)
 	}
+	withVotes := e.symEntrances > 0
 	if !e.restart() {
 		return nil
 	}
 	e.check(vhC02)
+	if withVotes {
+		// (3 more events after a restart view with arbitrary vote numbers did not finish within
+		// the thorough budget: 73200 paths in 1500 s; reduced to 1)
+		k = 1
+	}
 	e.run(vhC02, kinds, k)
 	return e
 }
